@@ -18,7 +18,7 @@ use bump_scope::settings::{Bool, BumpSettings, MinimumAlignment, SupportedMinimu
 use bump_scope::traits::BumpAllocator;
 use bump_scope::{BaseAllocator, Bump, Checkpoint};
 
-use verif_harness::base::{A0, A8, A64, BASE, Ev, TestBase};
+use verif_harness::base::{A0, A8, A64, A256, BASE, Ev, TestBase};
 use verif_harness::scope_ops::{DUMMY_ADDR, Dump, Elem, ScopeOps, TryKind, Via};
 use verif_harness::{Rng, seed};
 
